@@ -191,6 +191,7 @@ class LubaGW(SerialDevice):
         self.tx_id = 0
         self.tick = 0
         self.nmsg = 0
+        self.truncate_confirm = {}    # send idx -> number of bytes of the confirmation that still arrive
         self.silent_confirm = set()   # send indices whose confirmations are lost
         self.silent_answer = set()    # send indices whose answer event is lost
         self.late_confirm = {}        # send idx -> extra us
@@ -216,12 +217,15 @@ class LubaGW(SerialDevice):
                 continue
             self.on_frame(fr[1], fr[3:-1], unit, fr)
 
-    def event(self, etype, info, tail, at_us, key):
+    def event(self, etype, info, tail, at_us, key, truncate=None):
         self.tick = (self.tick + 1) & 0xFFFF
         payload = [self.tick >> 8, self.tick & 0xFF, 0,
                    ((etype & 3) << 6) | (info & 0x3F)] + list(tail)
         self.nmsg += 1
-        return self.send_bytes(luba_frame(0x31, payload), at_us, (key, self.nmsg))
+        frame = luba_frame(0x31, payload)
+        if truncate:
+            frame = frame[:truncate]        # the gateway falls silent in the middle of its message
+        return self.send_bytes(frame, at_us, (key, self.nmsg))
 
     def on_frame(self, cmd, payload, unit, raw):
         now = self.world.now_us()
@@ -282,10 +286,13 @@ class LubaGW(SerialDevice):
         start = self.line.reserve(now + r.randrange(500, 1500), dur)
         end = start + dur
         fbytes = list(value.to_bytes(nbytes, "big"))
-        lost_conf = idx in self.silent_confirm
+        trunc = self.truncate_confirm.get(idx)
+        lost_conf = idx in self.silent_confirm or trunc is not None
         lat1 = self.lat.draw(self.name, "c1", idx)
         conf_arrival = end + 3000 + lat1 + self.late_confirm.get(idx, 0)
         conf_planned = conf_arrival
+        if trunc is not None:
+            self.event(0, bits, [tx_id] + fbytes, conf_arrival, "sent-truncated", truncate=trunc)
         if not lost_conf:
             conf_arrival = self.event(0, bits, [tx_id] + fbytes, conf_arrival, "sent") or conf_arrival
         if twice:
